@@ -57,6 +57,19 @@ def cases(tier, rng):
         ht = rng.choice(TAPROOT_TYPES)
         if (ht & 3) == 3 and i >= len(t["outs"]): ht = 0
         yield {"k": "key", "key": key, "sc": sc, "tx": t, "spks": spks, "amts": amts, "i": i, "ht": ht, "par": list(c)}
+    # output keys whose x coordinate starts with a zero byte (1 in 256): found by search, with and without a script tree
+    found = tries = 0
+    while found < (4 if tier == "quick" else 24) and tries < 20000:
+        tries += 1
+        key = rng.randrange(1, N)
+        sc = None if tries % 2 else rand_tree(rng, depth=rng.choice([1, 2]))
+        root = _root_of(sc)
+        if root is None: continue
+        wp = refbip341.output(key, root)[0]
+        if wp[0] != 0: continue
+        found += 1
+        t, spks, amts, i = _ctx(rng)
+        yield {"k": "key", "key": key, "sc": sc, "tx": t, "spks": spks, "amts": amts, "i": i, "ht": rng.choice([0, 1])}
     for ht in TAPROOT_TYPES:
         for _ in range(4 if tier == "quick" else 100):
             t, spks, amts, i = _ctx(rng)
